@@ -48,6 +48,8 @@ def scenario(sid, workload, timing, faults, dials=(), connacks=(), opts=None, in
                 r["retain"] = True
             if w.get("pid"):
                 r["pid"] = w["pid"]
+            if w.get("size"):
+                r["size"] = w["size"]
         elif w["k"] == "sub":
             r["subs"] = w["subs"]
         elif w["k"] == "unsub":
@@ -353,7 +355,7 @@ def l2_eligible(sc, res):
     if "evs" not in res or res.get("info", {}).get("unreached"):
         return False
     o = sc.get("opts", {})
-    if o.get("pingMs") or o.get("hookEvents") or o.get("cleanSession") or o.get("grantCap") is not None or o.get("promptAcks"):
+    if o.get("pingMs") or o.get("hookEvents") or o.get("cleanSession") or o.get("grantCap") is not None or o.get("promptAcks") or o.get("grantCode") is not None or o.get("maxPayload"):
         return False
     if any(r["k"] not in ("pub", "sub", "unsub", "peerclose", "sleep", "release", "handle") or r.get("swap") for r in sc["reqs"]):
         return False
